@@ -24,7 +24,7 @@ theorem loopReturn_step {P : Prog} {v v' : SV} {evs : List Tr} {q : Nat} (hs : S
       subst h
       exact ⟨_, hc, hr, rfl, rfl⟩
   | raise _ _ => exact absurd h (not_mem_exitEv_of_ne_exit (by simp))
-  | stutter | halt _ _ | apprun _ | restore _ _ | identSkip _ _ _ => cases h
+  | stutter | halt _ _ | apprun _ | restore _ _ | identSkip _ _ _ | enqAct _ => cases h
   | kill _ | forceQuit _ | schedule _ | pushScr _ | replace _ _ | «open» _ _ | pop _ _ _ | popExit _ _ _
   | pushModal _ | closeScreen _ _ | discard _ _ => simp at h
 
@@ -33,15 +33,15 @@ theorem openLevel_step {P : Prog} {v v' : SV} {evs : List Tr} {q : Nat} {b : Boo
     (h : Tr.openLevel q b ∈ evs) :
     ∃ s rest, v.code = .newLoop s :: rest ∧ v.forceQuit = false ∧ q = v.nq ∧ b = v.runLoop ∧
       evs = [.openLevel q b] ∧
-      v' = { v with code := .mainCheck v.nq :: rest, levels := v.levels ++ [v.nq], active := v.nq, nq := v.nq + 1,
-                    ev := .openLevel v.nq v.runLoop :: v.ev } := by
+      v' = SV.noteExc { v with code := .mainCheck v.nq :: rest, levels := v.levels ++ [v.nq], active := v.nq,
+                               nq := v.nq + 1, ev := .openLevel v.nq v.runLoop :: v.ev } (s.cls == .exception) := by
   cases hs with
   | batch hc hb =>
     rcases batch_markers hb with ⟨_, _, h3⟩ | ⟨q', rfl, rfl, rfl, hr⟩
     · have := h3 _ h; cases this
     · simp at h
   | raise _ _ => exact absurd h (not_mem_exitEv_of_ne_exit (by simp))
-  | stutter | halt _ _ | apprun _ | restore _ _ | identSkip _ _ _ => cases h
+  | stutter | halt _ _ | apprun _ | restore _ _ | identSkip _ _ _ | enqAct _ => cases h
   | «open» hc hf =>
     simp only [List.mem_singleton, Tr.openLevel.injEq] at h
     obtain ⟨rfl, rfl⟩ := h
@@ -64,7 +64,7 @@ theorem end_step {P : Prog} {v v' : SV} {evs : List Tr} (hch : Chained v.code) (
     · simp [exitEv] at h
   | kill _ => rfl
   | popExit hc _ _ => rw [hc] at hch; exact unwind_exit_chained hch.2
-  | stutter | halt _ _ | apprun _ | restore _ _ | identSkip _ _ _ => simp at h
+  | stutter | halt _ _ | apprun _ | restore _ _ | identSkip _ _ _ | enqAct _ => simp at h
   | forceQuit _ | schedule _ | pushScr _ | replace _ _ | «open» _ _ | pop _ _ _
   | pushModal _ | closeScreen _ _ | discard _ _ => simp at h
 
@@ -109,6 +109,7 @@ theorem markers_step {P : Prog} {v v' : SV} {evs : List Tr} (hch : Chained v.cod
   | kill _ => exact .inr (.inr (.inl rfl))
   | forceQuit hc => exact .inr (.inr (.inr (tail hc rfl)))
   | schedule hc => exact .inr (.inr (.inr (tail hc rfl)))
+  | enqAct hc => exact .inr (.inr (.inr (tail hc rfl)))
   | pushScr hc => exact .inr (.inr (.inr (tail hc rfl)))
   | replace hc _ => exact .inr (.inr (.inr (tail hc rfl)))
   | apprun hc => refine .inr (.inr (.inr ?_)); rw [hc]; rfl
@@ -143,7 +144,7 @@ theorem lc_keeps {P : Prog} {v v' : SV} {evs : List Tr} {h : Instr} {rest : List
   | kill hc' => rw [hc] at hc'; cases hc'; exact absurd rfl (hk _)
   | apprun hc' => rw [hc] at hc'; cases hc'; exact ⟨_, rfl⟩
   | restore hc' _ => rw [hc] at hc'; cases hc'; exact ⟨[], rfl⟩
-  | forceQuit hc' | schedule hc' | pushScr hc' | replace hc' _ | «open» hc' _ | pop hc' _ _ | popExit hc' _ _
+  | forceQuit hc' | enqAct hc' | schedule hc' | pushScr hc' | replace hc' _ | «open» hc' _ | pop hc' _ _ | popExit hc' _ _
   | pushModal hc' | closeScreen hc' _ | discard hc' _ | identSkip hc' _ _ =>
     rw [hc] at hc'; cases hc'; cases hh
 
